@@ -391,6 +391,10 @@ def parse_array(data: dict, config: Config, unparsed_keys: Set[str], pointer: Js
             append_node.add_transition(items_node)
             all_items_node.add_transition(append_node)
 
+    # An array without any item is complete as it is
+    if not root_node.outgoing_transitions:
+        root_node.add_transition(NoOpLeaf(None, True))
+
     return root_node
 
 
